@@ -78,6 +78,51 @@ fn check_snapshot(at: usize) -> Result<usize, Fail> {
     Ok(keys.len())
 }
 
+/// progress of the current history, for the hang watchdog: (requests finished so far in this
+/// process, the history being executed and the index of the request in flight)
+static PROGRESS: std::sync::atomic::AtomicU64 = std::sync::atomic::AtomicU64::new(0);
+static CURRENT: std::sync::Mutex<Option<(History, usize, u64)>> = std::sync::Mutex::new(None);
+
+/// A request that never returns (a requester waiting for a generation that will never finish, a
+/// lock taken twice) would hang the check: a watchdog thread reports it as a violation when no
+/// request has finished for `secs` seconds of real time (sleep is not subject to the clock seam).
+fn start_watchdog(ctx: &Ctx, secs: u64, replay_path: Option<String>) {
+    let ctx = ctx.clone();
+    std::thread::spawn(move || {
+        let mut last = PROGRESS.load(std::sync::atomic::Ordering::SeqCst);
+        let mut idle = 0u64;
+        loop {
+            std::thread::sleep(std::time::Duration::from_secs(1));
+            let now = PROGRESS.load(std::sync::atomic::Ordering::SeqCst);
+            if now != last {
+                last = now;
+                idle = 0;
+                continue;
+            }
+            idle += 1;
+            if idle < secs {
+                continue;
+            }
+            let cur = CURRENT.lock().unwrap_or_else(|p| p.into_inner()).clone();
+            let Some((h, at, run)) = cur else {
+                idle = 0;
+                continue;
+            };
+            let f = Fail { oracle: "hang".into(), detail: format!("request #{at} ({:?}) has not returned for {secs} s: the requester is blocked for good", h.reqs.get(at)), at };
+            let mut hh = h.clone();
+            hh.reqs.truncate(at + 1);
+            match &replay_path {
+                Some(p) => println!("VIOLATION property=C17 replay={p} oracle=sequential:hang :: request #{at}: {}", f.detail),
+                None => {
+                    let v = to_violation(&ctx, run, &hh, &f, Some((h.reqs.len(), hh.reqs.len())));
+                    report::conclude(&ctx, &[v]);
+                }
+            }
+            std::process::exit(1);
+        }
+    });
+}
+
 thread_local! {
     static WEAKS: std::cell::RefCell<HashMap<u16, std::sync::Weak<raptorq::SourceBlockEncodingPlan>>> = std::cell::RefCell::new(HashMap::new());
 }
@@ -98,6 +143,10 @@ pub fn execute(h: &History, refs: &mut HashMap<(u16, u16, u8), Observed>) -> Res
     let mut st = Stats { client_crashes: 0, weak_checks: 0, clock_jumps: 0, jumped_s: 0, requests: 0, max_cached: 0, hits: 0, evictions: 0, alias_pairs: 0 };
     let mut prev: Option<Req> = None;
     for (at, r) in h.reqs.iter().enumerate() {
+        PROGRESS.fetch_add(1, std::sync::atomic::Ordering::SeqCst);
+        if let Some(c) = CURRENT.lock().unwrap_or_else(|p| p.into_inner()).as_mut() {
+            c.1 = at;
+        }
         if r.jump_s > 0 {
             if !clock::advance_s(r.jump_s) {
                 eprintln!("HARNESS-ERROR: clock seam missing (history asks for a clock jump)");
@@ -282,6 +331,7 @@ pub fn run(ctx: &Ctx) -> i32 {
     let t0 = std::time::Instant::now();
     let n = ctx.runs(150, 6_000);
     let mut refs: HashMap<(u16, u16, u8), Observed> = HashMap::new();
+    start_watchdog(ctx, 120, None);
     // self-check of the seam: std's Instant must see a jump
     let probe = std::time::Instant::now();
     if !clock::advance_s(7) || probe.elapsed().as_secs() < 7 {
@@ -308,6 +358,7 @@ pub fn run(ctx: &Ctx) -> i32 {
             sample = Some(json!({"requests": h.reqs.len(), "head": &h.reqs[..12.min(h.reqs.len())]}));
         }
         runs += 1;
+        *CURRENT.lock().unwrap_or_else(|p| p.into_inner()) = Some((h.clone(), 0, run));
         match execute(&h, &mut refs) {
             Ok(st) => {
                 total.requests += st.requests;
@@ -321,6 +372,8 @@ pub fn run(ctx: &Ctx) -> i32 {
                 total.alias_pairs += st.alias_pairs;
             }
             Err(f) => {
+                // (the watchdog only watches requests, not the minimisation that follows)
+                *CURRENT.lock().unwrap_or_else(|p| p.into_inner()) = None;
                 // minimise: the cache keeps state between executions, so a candidate is judged by
                 // re-running it (the failure classes of interest do not depend on earlier runs)
                 let oracle = f.oracle.clone();
@@ -366,6 +419,7 @@ pub fn run(ctx: &Ctx) -> i32 {
             }
         }
     }
+    *CURRENT.lock().unwrap_or_else(|p| p.into_inner()) = None;
     // the harness's own stopwatch reads the simulated clock too: take the jumps out again
     let wall = (t0.elapsed().as_secs_f64() - total.jumped_s as f64).max(0.0);
     let frag = json!({
@@ -404,6 +458,8 @@ pub fn replay(ctx: &Ctx, doc: &serde_json::Value) -> i32 {
         }
     };
     let mut rf = HashMap::new();
+    *CURRENT.lock().unwrap_or_else(|p| p.into_inner()) = Some((h.clone(), 0, doc["run"].as_u64().unwrap_or(0)));
+    start_watchdog(ctx, 60, Some(doc["__path"].as_str().unwrap_or("?").to_string()));
     match execute(&h, &mut rf) {
         Ok(_) => {
             println!("replay: history passes ({} requests)", h.reqs.len());
